@@ -20,3 +20,22 @@ def run(chk):
     from .c19 import STRATEGY_INIT_REF
     check_equiv(chk, "C19.R1", CORE, "Strategy", "__init__", STRATEGY_INIT_REF, "strategy-construction",
                 "every Strategy instance starts with its own stack and its own empty temp and perm (nothing shared between instances or with the template)", no_inline=("__init__",))
+    no_process_dependent_hash(chk)
+    from .c14 import random_sample
+    random_sample(chk)  # the random selection draws through the generator the caller seeds (random.seed): that is what makes a seeded run repeatable
+
+
+def no_process_dependent_hash(chk):
+    """hash() of a str / bytes / tuple containing one differs from process to process (PYTHONHASHSEED): nothing derived from it may steer a run"""
+    import ast
+    n = 0
+    for f in chk.prog.all_functions(modules=("bt/core.py", "bt/algos.py", "bt/backtest.py")):
+        n += 1
+        if f.name == "__hash__":
+            continue
+        for node in ast.walk(f.node):
+            if isinstance(node, ast.Call) and isinstance(node.func, ast.Name) and node.func.id == "hash":
+                chk.ob("C11.R5", False, f.module, f.qual, "process-dependent-hash", "the built-in hash of strings is randomised per process: a value derived from it makes runs differ between processes",
+                       where="%s:%d" % (f.module, node.lineno), expected="a process-independent key (the values themselves, a string, hashlib)", found=ast.unparse(node)[:120])
+    chk.floor_count("C11.R5:functions scanned for hash()", n, 200)
+
